@@ -190,6 +190,27 @@ pub fn help_path(def: &J, text: &str) -> Option<Vec<String>> {
     Some(path)
 }
 
+/// candidate replacements in a revision-0 completion output (placeholders have an empty replacement)
+pub fn completion_cands(text: &str) -> Vec<String> {
+    if !text.contains('\t') {
+        if text.ends_with('\n') {
+            return vec![]; // nothing matched: the typed word is echoed
+        }
+        return vec![text.to_string()]; // exactly one candidate
+    }
+    let mut out = Vec::new();
+    for l in text.lines() {
+        if l.is_empty() {
+            break;
+        }
+        let subst = l.split('\t').next().unwrap_or("");
+        if !subst.is_empty() {
+            out.push(subst.to_string());
+        }
+    }
+    out
+}
+
 pub fn project(def: &J, o: &Obs) -> J {
     match o.class {
         "ok" => json!({"class":"ok","value":o.value}),
@@ -201,7 +222,7 @@ pub fn project(def: &J, o: &Obs) -> J {
             }
         }
         "stderr" => json!({"class":"stderr","text":o.text}),
-        "completion" => json!({"class":"completion","text":o.text}),
+        "completion" => json!({"class":"completion","text":o.text,"cands":completion_cands(&o.text)}),
         _ => json!({"class":"panic","text":o.text}),
     }
 }
@@ -256,6 +277,13 @@ pub fn conforms(expect: &J, got: &J) -> bool {
                 }
             }
             !got["text"].as_str().unwrap_or("").is_empty()
+        }
+        "completion" => {
+            let cands: Vec<&str> = got["cands"].as_array().map(|a| a.iter().filter_map(J::as_str).collect()).unwrap_or_default();
+            let must = expect["must"].as_array().cloned().unwrap_or_default();
+            let may = expect["may"].as_array().cloned().unwrap_or_default();
+            must.iter().all(|m| cands.contains(&m.as_str().unwrap_or("?")))
+                && cands.iter().all(|c| may.iter().any(|m| m.as_str() == Some(c)))
         }
         _ => true,
     }
